@@ -68,6 +68,10 @@ class Out:
     def write(self, x):
         self.parts.append(x)
 
+    def writelines(self, lines):
+        for x in lines:
+            self.parts.append(x)
+
     def term(self):
         ts = [p.t if isinstance(p, SymStr) else S(p) for p in self.parts]
         return ts[0] if len(ts) == 1 else z3.Concat(*ts)
@@ -207,29 +211,29 @@ def loop_layout(chk, mod):
         with FormatStub(mod):
             lp = mod.Loop({'c1': Col([SymStr(a)]), 'c2': Col([SymStr(b)])})
             lp.write(f)
-        core.ctx().log.append(('parts', list(f.parts)))
+        core.ctx().log.append(('out', f.term()))
     paths = chk.explore(call, base=[], catch=(Exception,), max_paths=50)
     n = 0
+    header = S('loop_\n_c1\n_c2\n')
     for i, p in enumerate(paths):
         if p.kind != 'return':
             chk.decided(f'{pre}/no-raise[path{i}]', False, detail=f'{type(p.value).__name__}: {p.value}')
             continue
-        parts = [e for e in p.log if e[0] == 'parts'][0][1]
+        # (the text that reaches the file is what counts, not how it is cut into write() calls)
+        out = [e for e in p.log if e[0] == 'out'][0][1]
         fm = [e for e in p.log if e[0] == 'formatted']
         hy = p.axioms + p.pc
-        chk.decided(f'{pre}/header: loop_ and one tag per line[path{i}]', parts[:3] == ['loop_\n', '_c1\n', '_c2\n'] and len(fm) == 2, detail=str(parts[:3]))
+        chk.decided(f'{pre}/each of the two items formatted once[path{i}]', len(fm) == 2, detail=str(len(fm)))
         if len(fm) != 2:
             continue
         v1, v2 = fm[0][2], fm[1][2]
-        row = parts[3]
-        rt = row.t if isinstance(row, SymStr) else S(row)
+        flat, broken = z3.Concat(header, v1, S(' '), v2, S('\n')), z3.Concat(header, v1, S('\n'), v2, S('\n'))
         n += 1
-        chk.prove(f'{pre}/row==item,separator,item[path{i}]', hy, z3.Or(rt == z3.Concat(v1, S(' '), v2), rt == z3.Concat(v1, S('\n'), v2)), timeout=30)
-        chk.prove(f'{pre}/a-text-field-in-a-row-starts-its-own-line[path{i}]', hy, z3.Implies(z3.Or(is_text(v1), is_text(v2)), rt == z3.Concat(v1, S('\n'), v2)), timeout=30,
+        chk.prove(f'{pre}/header: loop_ and one tag per line, then the row: item, separator, item, newline[path{i}]', hy, z3.Or(out == flat, out == broken), timeout=30)
+        chk.prove(f'{pre}/a-text-field-in-a-row-starts-its-own-line[path{i}]', hy, z3.Implies(z3.Or(is_text(v1), is_text(v2)), out == broken), timeout=30,
                   meta={'form': 'loop-layout'})
         chk.prove(f'{pre}/an-item-that-begins-a-line-starts-with-;-only-if-it-is-a-text-field[path{i}]', hy,
                   z3.And(z3.Implies(z3.PrefixOf(S(';'), v1), is_text(v1)), z3.Implies(z3.PrefixOf(S(';'), v2), is_text(v2))), timeout=30)
-        chk.decided(f'{pre}/row-terminated-by-newline[path{i}]', parts[4:] == ['\n'], detail=str(parts[4:]))
     chk.decided(f'{pre}/both-separators-explored', n >= 2, detail=str(n))
 
 
